@@ -67,52 +67,50 @@ def case_line(op, frags, mode="v"):
     return f"{mode} {hexs(text)} {hexs(expanded)} {fr} {sexpr(op) or '-'}"
 
 
-# ---- the code's algorithm and the known class, re-implemented (Known_C25 of Intro/MaxDepth.v)
+# ---- the code's algorithm re-implemented (cross-check of the extracted model; old=True: before the D16 fix)
 
 class _Err(Exception):
     pass
 
 
-def instr_check(op, frags):
-    """returns (verdict, true expanded depth or None, known) ; frags: name -> (ctx, body)"""
+def py_check(op, frags, old=False):
     memo = {}
-    bad = [False]
 
     def go(d, sels):
-        maxd, t = d, d
+        maxd = d
         for s in sels:
             if s[0] == "i":
-                v, t2 = go(d, s[2])
-                maxd, t = max(maxd, v), max(t, t2)
+                maxd = max(maxd, go(d, s[2]))
             elif s[0] == "s":
                 if s[1] not in frags:
                     continue
                 if s[1] in memo:
-                    fd, tfd = memo[s[1]]
-                    if d + fd > MAX:
-                        raise _Err()
-                    t = max(t, d + tfd)
-                    if d + tfd >= MAX:
-                        bad[0] = True
+                    post = d + memo[s[1]]
+                    if old:
+                        if post > MAX:
+                            raise _Err()
+                    else:
+                        if post >= MAX:
+                            raise _Err()
+                        maxd = max(maxd, post)
                 else:
-                    post, t2 = go(d, frags[s[1]][1])
-                    memo[s[1]] = (post - d, t2 - d)
-                    maxd, t = max(maxd, post), max(t, t2)
+                    post = go(d, frags[s[1]][1])
+                    memo[s[1]] = post - d
+                    maxd = max(maxd, post)
             else:
                 depth = d
                 if s[1] in LIST_NAMES:
                     depth += 1
                     if depth >= MAX:
                         raise _Err()
-                v, t2 = go(depth, s[2])
-                maxd, t = max(maxd, v), max(t, t2)
-        return maxd, t
+                maxd = max(maxd, go(depth, s[2]))
+        return maxd
 
     try:
         go(0, op)
-        return "ok", bad[0]
+        return "ok"
     except _Err:
-        return "err", False
+        return "err"
 
 
 def true_depth(sels, frags):
@@ -357,23 +355,11 @@ def run(ctx):
             return True
         return iobs == mo.split(" ")[0]
 
-    def classify(c, iobs, mo):
-        op, frags = trees_by_line[c]
-        v, known = instr_check(op, frags)
-        mv, d = parse_model(mo)
-        if known != (d["k"] == "1") or v != mv:
-            raise MachineryError(f"driver's Known_C25 / check differs from the extracted one on {c}: {v},{known} vs {mo}")
-        # the class only excuses the oracle (accepted, but the expanded form is rejected), never a
-        # disagreement between the implementation and the model
-        if known and iobs == mv:
-            return "memo_hit_reaching_limit"
-        return None
-
     def describe(c):
         p = c.split(" ")
         return {"document": unhexs(p[1]), "expanded": unhexs(p[2]), "mode": p[0]}
 
-    rows = ctx.correspond(impl, model, "c25_depth", cases, classify=classify,
+    rows = ctx.correspond(impl, model, "c25_depth", cases,
                           nontrivial=lambda c, o: True, describe=describe, compare=compare)
     for c, i, m in rows:
         mv, d = parse_model(m)
@@ -382,9 +368,13 @@ def run(ctx):
         op, frags = trees_by_line[c]
         if int(d["x"]) != true_depth(op, frags):
             raise MachineryError(f"driver's expanded depth differs from the model's on {c}: {m}")
+        if mv != py_check(op, frags) or d["old"] != py_check(op, frags, old=True):
+            raise MachineryError(f"driver's re-implementation of the check differs from the extracted model on {c}: {m}")
+        if (mv == "err") != (int(d["x"]) >= MAX):
+            raise MachineryError(f"model verdict differs from the specification (theorem C25_iff says it cannot) on {c}: {m}")
         if i in ("ok", "err"):
             stats[i] += 1
-        if d["k"] == "1":
+        if d["old"] != mv:
             stats["known"] += 1
         stats["depth_hist"][d["x"]] = stats["depth_hist"].get(d["x"], 0) + 1
     if stats["invalid"] * 100 > len(cases):
@@ -392,7 +382,7 @@ def run(ctx):
                              "the generator no longer matches the introspection schema")
     fam = ctx.cov["families"]["c25_depth"]
     fam.update({"accepted": stats["ok"], "rejected": stats["err"], "invalid_skipped": stats["invalid"],
-                "in_known_class": stats["known"], "expanded_depth_histogram": stats["depth_hist"],
+                "cases_where_the_pre_fix_code_differs": stats["known"], "expanded_depth_histogram": stats["depth_hist"],
                 "exhaustive_cases": n_ex, "exhaustive_node_budget": budget,
                 "strided_cases_of_next_budget": n_stride, "random_cases": nrand})
     for c, i, m in rows[:3] + rows[len(rows) // 2: len(rows) // 2 + 2] + rows[-2:]:
